@@ -114,7 +114,7 @@ func buildWorld(c *core.Ctx, base int64, tightWindows bool) *world {
 	for i := 0; i < k; i++ {
 		s := signerSpec{leaf: fixtures.ByName(pool[perm[i]])}
 		s.rs = c.PickInt("signer.rs", 1, 16, 100, 4096, 16384)
-		s.chainLen = c.Int("signer.chainLen", 1, 2)
+		s.chainLen = c.Int("signer.chainLen", 1, 3)
 		s.entropy = byte(c.Int("signer.entropy", 0, 255))
 		if tightWindows {
 			s.date = base - c.I64("signer.back", 0, 50)
@@ -128,10 +128,32 @@ func buildWorld(c *core.Ctx, base int64, tightWindows bool) *world {
 	return w
 }
 
+// sharedChains, when non-nil, makes worlds of one run hand the SAME CertChain
+// value to signers with the same leaf and length (a publisher signing several
+// bundles with one loaded chain).
+var sharedChains map[string]certurl.CertChain
+
 func (w *world) chain(s signerSpec) certurl.CertChain {
+	key := fmt.Sprintf("%s/%d", s.leaf.Name, s.chainLen)
+	if sharedChains != nil {
+		if ch, ok := sharedChains[key]; ok {
+			return ch
+		}
+	}
+	ch := w.chain0(s)
+	if sharedChains != nil {
+		sharedChains[key] = ch
+	}
+	return ch
+}
+
+func (w *world) chain0(s signerSpec) certurl.CertChain {
 	certs := []*x509.Certificate{s.leaf.Cert()}
 	if s.chainLen > 1 {
 		certs = append(certs, fixtures.CA())
+	}
+	if s.chainLen > 2 {
+		certs = append(certs, fixtures.CA()) // (a cross-signed copy of the root as third element)
 	}
 	ch, err := certurl.NewCertChain(certs, []byte("ocsp-"+s.leaf.Name), nil)
 	if err != nil {
@@ -712,8 +734,23 @@ func (w *world) byzantine(c *core.Ctx, b *bundle.Bundle, class string) string {
 		o := b.Exchanges[c.Pick("field.other", len(b.Exchanges))]
 		e.Response.Body, o.Response.Body = o.Response.Body, e.Response.Body
 	case "body-truncate-record":
-		if len(e.Response.Body) > 9 {
-			e.Response.Body = e.Response.Body[:len(e.Response.Body)-1]
+		// cut the integrity-encoded body exactly behind a record or behind a proof
+		rs := 16
+		if vo, ok := w.vouched[e.Request.URL.String()]; ok {
+			rs = w.signers[vo.signer].rs
+		}
+		n := len(e.Response.Body)
+		if n > 8 {
+			k := c.Int("field.records", 0, (n-8)/(rs+32)+1)
+			cut := 8 + k*(rs+32)
+			if c.Bool("field.cutAfterRecord") && k > 0 {
+				cut = 8 + k*rs + (k-1)*32
+			}
+			if cut >= n {
+				cut = n - 1
+			}
+			e.Response.Body = e.Response.Body[:cut]
+			c.Probe("body cut at a record / proof boundary")
 		}
 	case "content-encoding":
 		e.Response.Header.Set("Content-Encoding", "identity")
@@ -773,6 +810,20 @@ func TestTwoVerifiers(t *testing.T) {
 	rapid.Check(t, func(t *rapid.T) {
 		core.Run(t, "bsig/two-verifiers", func(c *core.Ctx) {
 			ws := []*world{buildWorld(c, 1650000000, false), buildWorld(c, 1650000000, false)}
+			sharedChains = nil
+			if c.Bool("shareChains") {
+				sharedChains = map[string]certurl.CertChain{}
+				// same signer set for both bundles, so that the shared chains are actually used
+				ws[1].signers = append([]signerSpec(nil), ws[0].signers...)
+				c.Probe("two bundles signed with the same CertChain values")
+			}
+			defer func() { sharedChains = nil }()
+			if sharedChains != nil && c.Bool("interleaveSigners") && len(ws[0].signers) >= 2 && !ws[0].hostOverlap() && !ws[1].hostOverlap() {
+				// order A1 B1 A2 B2 instead of A1 A2 B1 B2
+				if signInterleaved(ws) != nil {
+					return
+				}
+			}
 			var vs []*signature.Verifier
 			var bs []*bundle.Bundle
 			for i, w := range ws {
@@ -780,8 +831,10 @@ func TestTwoVerifiers(t *testing.T) {
 					c.Outcome("skipped")
 					return
 				}
-				if err := w.sign(false); err != nil {
-					return
+				if w.b == nil {
+					if err := w.sign(false); err != nil {
+						return
+					}
 				}
 				rb, err := readBundle(c, w.file, core.ReaderPlan{ErrAt: -1})
 				if err != nil {
@@ -853,4 +906,55 @@ func TestTwoVerifiers(t *testing.T) {
 			c.Sig("%s", sched)
 		})
 	})
+}
+
+// signInterleaved signs two bundles signer by signer in alternation.
+func signInterleaved(ws []*world) error {
+	bs := []*bundle.Bundle{ws[0].lb.ToRepo(), ws[1].lb.ToRepo()}
+	full := [][]signerSpec{ws[0].signers, ws[1].signers}
+	for i := range full[0] {
+		for wi, w := range ws {
+			w.signers = full[wi][i : i+1]
+			// sign() starts from w.lb; emulate one step on the evolving bundle instead
+			if err := w.signStep(bs[wi], full[wi][i], i); err != nil {
+				w.signers = full[wi]
+				return err
+			}
+		}
+	}
+	for wi, w := range ws {
+		w.signers = full[wi]
+		w.b = bs[wi]
+		var buf bytes.Buffer
+		if _, err := bs[wi].WriteTo(&buf); err != nil {
+			return err
+		}
+		w.file = buf.Bytes()
+	}
+	return nil
+}
+
+// signStep applies one signer to an evolving bundle (the loop body of sign).
+func (w *world) signStep(b *bundle.Bundle, s signerSpec, i int) error {
+	vu, _ := url.Parse("https://" + s.leaf.Hosts[0] + "/validity")
+	signer, err := signature.NewSigner(b.Version, w.chain(s), s.leaf.Key, vu, time.Unix(s.date, 0), time.Duration(s.duration)*time.Second)
+	if err != nil {
+		return err
+	}
+	signer.Algorithm, _ = verifhook.SigningAlgorithmForPrivateKey(s.leaf.Key, fixtures.ConstReader{B: s.entropy})
+	for j, e := range b.Exchanges {
+		if !signer.CanSignForURL(e.Request.URL) {
+			continue
+		}
+		le := w.lb.Exchanges[w.indexOf(e.Request.URL.String(), j)]
+		if _, dup := w.vouched[le.URL]; dup {
+			continue
+		}
+		hdr := le.Resp.Canon()
+		dg, _ := refmice.Encode(refmice.Draft03, le.Resp.Body, s.rs)
+		hdr["content-encoding"] = "mi-sha256-03"
+		hdr["digest"] = dg
+		w.vouched[le.URL] = vouched{signer: i, status: le.Resp.Status, headers: hdr, body: le.Resp.Body}
+	}
+	return addSignature(b, signer, s.rs)
 }
